@@ -55,13 +55,13 @@ PROPS = {
         "trusted_base": [MODEL_FILES, "translator /verif/extract and the exhaustive sweep `harness observe` (Gen/*.lean)"],
     },
     "C10": {
-        "suites": "KAC,LOOKUPS,CTWIN",
+        "suites": "KAC,LOOKUPS,CTWIN" + ",HIST",
         "gen": True,
         "assumptions": COMMON_ASSUME,
         "trusted_base": ["model files: lean/I2P/Tables.lean, Kac.lean", "translator /verif/extract and the exhaustive sweep `harness observe` (Gen/*.lean)"],
     },
     "C11": {
-        "suites": "MAP",
+        "suites": "MAP" + ",HIST",
         "assumptions": COMMON_ASSUME + [
             "Go map iteration order is modelled as an arbitrary permutation of the association list",
             "sort.SliceStable is modelled by List.mergeSort (stable); validated differentially",
@@ -137,7 +137,7 @@ PROPS = {
                          "model file: lean/I2P/Structs.lean (readLeaseSet2)"],
     },
     "C06": {
-        "suites": "C06",
+        "suites": "C06" + ",HIST",
         "assumptions": COMMON_ASSUME + [
             "signature schemes are abstract in the Lean statement: one law, verify t (pub t sk) m (sign t sk m r) = true; the theorems are about "
             "data flow (the constructor signs exactly the byte string Verify recomputes from the value)",
@@ -161,7 +161,7 @@ PROPS = {
         "trusted_base": ["model file: lean/I2P/Ctor.lean (ctorAccepts / validates / parses per structure; size tables from lean/I2P/Tables.lean)"],
     },
     "C02": {
-        "suites": "C02",
+        "suites": "C02" + ",HIST",
         "assumptions": COMMON_ASSUME + [
             "the specification is the I2P 0.9.67 common-structures layout as transcribed twice, independently: harness/spec.go (Go) and lean/I2P/Spec/Structs.lean (Lean); "
             "for MetaLeaseSet the layout documented in /repo/meta_leaseset/meta_leaseset_struct.go is used",
